@@ -25,12 +25,19 @@ def decode_obs(x):
     return [ep, t, a, reads]
 
 
+def agent_id(i):
+    """id of the i-th agent of the stub (not in lexicographic order, not of equal length)"""
+    i = int(i)
+    return f"{'zwxbyvcuat'[i % 10]}{i}{'_' * (i % 3)}"
+
+
 def accr(a, t, act):
     return 1 + ((3 * a + 5 * t + ((2 + abs(int(act))) if act is not None else 0)) % 4)
 
 
 class StubSim(DynamicOrderSimulation):
-    def __init__(self, script, discrete=False, flat_ep=False):
+    def __init__(self, script, discrete=False, flat_ep=False, null_obs=None):
+        # null_obs (optional, added for C14): per agent index a declared null observation or None
         self.discrete = discrete
         self.flat_ep = flat_ep
         self.n = script["n"]
@@ -41,15 +48,18 @@ class StubSim(DynamicOrderSimulation):
         self.undone_at = list(script.get("undoneAt", []))
         # ids are deliberately NOT in lexicographic order (nor of equal length): code that sorts ids, iterates a
         # set of them or compares them as strings then differs visibly from code that keeps the listing order
-        self.ids = [f"{'zwxbyvcuat'[i % 10]}{i}{'_' * (i % 3)}" for i in range(self.n)]
+        self.ids = [agent_id(i) for i in range(self.n)]
         self.idx = {aid: i for i, aid in enumerate(self.ids)}
         agents = {}
         for i, aid in enumerate(self.ids):
             if self.learning[i]:
+                extra = {}
+                if null_obs is not None and null_obs[i] is not None:
+                    extra["null_observation"] = null_obs[i]
                 agents[aid] = Agent(id=aid,
                                     observation_space=(Discrete(10 ** 8) if discrete
                                                        else MultiDiscrete([1000] * 4)),
-                                    action_space=Discrete(10))
+                                    action_space=Discrete(10), **extra)
             else:
                 agents[aid] = PrincipleAgent(id=aid)
         self.agents = agents
@@ -119,6 +129,40 @@ class StubSim(DynamicOrderSimulation):
         return [self.finish_at <= self.t,
                 [self._done(a) for a in range(self.n)],
                 list(self.pend), list(nom)]
+
+
+class FusionStubSim(StubSim):
+    """Fusion-aware variant (C20; Lean side: `stubComm` in lean/Abmarl/Model/Comm.lean).
+
+    `get_obs(agent_id, fusion_matrix=None)` appends to the observation one bit per *other* agent
+    (listing order) read from the fusion matrix it was handed, and records in `fusion_log`
+    exactly what it was handed: (agent index, sorted [(other index, bit)] | None).  Everything
+    else is `StubSim`; the base class is not changed.
+    """
+    UNKNOWN = 99            # index reported for a key that is not an agent id
+
+    def __init__(self, script):
+        super().__init__(script, discrete=False)
+        for i, aid in enumerate(self.ids):
+            if self.learning[i]:
+                self.agents[aid].observation_space = MultiDiscrete([1000] * 4 + [2] * (self.n - 1))
+        self.finalize()
+        self.fusion_log = []
+
+    def canon_row(self, d):
+        """a {agent_id: bit} dictionary as a sorted list of [index, bool]"""
+        return sorted([self.idx.get(k, self.UNKNOWN), bool(v)] for k, v in d.items())
+
+    def get_obs(self, agent_id, fusion_matrix=None, **kwargs):
+        a = self.idx[agent_id]
+        given = fusion_matrix if isinstance(fusion_matrix, dict) else None
+        self.fusion_log.append((a, None if given is None else self.canon_row(given)))
+        o = [self.ep, self.t, a, self.reads[a]]
+        self.reads[a] += 1
+        for other in self.ids:
+            if other != agent_id:
+                o.append(1 if (given is not None and given.get(other, False)) else 0)
+        return o
 
 
 def script_to_wire(sc):
